@@ -83,7 +83,7 @@ contract("abs:make_row_tags", trusted=True, pos_params=["self", "outline_tags", 
          doc="call-site view of make_row_tags in make_scenario_for: a new list that is a function of (outline tags, row, parameters); "
              "what that function is, is the proved contract of ScenarioOutlineBuilder.make_row_tags above")
 TPL = "scenario_template"
-contract(M + "ScenarioOutlineBuilder.make_scenario_for", props=P,
+contract(M + "ScenarioOutlineBuilder.make_scenario_for", props=P + ["C02"],
          params={"self": "ref:ScenarioOutlineBuilder", "example": "ref:Examples", "row": "ref:Row",
                  "scenario_template": "ref:ScenarioOutline", "params": "dict"},
          self_classes=["ScenarioOutlineBuilder"],
@@ -93,7 +93,11 @@ contract(M + "ScenarioOutlineBuilder.make_scenario_for", props=P,
                     "self.make_row_tags": "abs:make_row_tags", "Scenario": "new:Scenario"},
          modifies=["dict(params)", "*.status", "*.hook_failed", "*.duration", "*.exception", "*.exc_traceback",
                    "*.error_message", "*.captured", "*._background_steps", "*._inherited_steps"],
-         loops=[Loop(invariant={"bg": "len(background_steps) == _i"}),
+         loops=[Loop(invariant={
+                    "one-row-copy-per-background-step-so-far-in-order":
+                        "len(background_steps) == _i and forall(lambda k: implies(0 <= k < _i, "
+                        "is_fresh(background_steps[k]) and copy_of(background_steps[k]) is _at(k)))",
+                    "same": "_seq is the_background_steps"}),
                 Loop(invariant={
                     "one-row-copy-per-outline-step-so-far-in-order":
                         "len(new_steps) == _i and forall(lambda k: implies(0 <= k < _i, is_fresh(new_steps[k]) and "
@@ -112,6 +116,12 @@ contract(M + "ScenarioOutlineBuilder.make_scenario_for", props=P,
                  "len(result.tags) == n_row_tags(scenario_template.tags, row, params) + len(example.tags) and "
                  "forall(lambda j: implies(0 <= j < n_row_tags(scenario_template.tags, row, params), "
                  "result.tags[j] == row_tag_at(scenario_template.tags, row, params, j)))",
+             "row-background-steps-are-row-copies-of-all-the-template's-background-steps-inherited-and-own":
+                 "implies(not is_none(result._background_steps), not is_none(scenario_template._background_steps) and "
+                 "len(as_list(result._background_steps, 'ref:Step')) == len(as_list(scenario_template._background_steps, 'ref:Step')) and "
+                 "forall(lambda k: implies(0 <= k < len(as_list(scenario_template._background_steps, 'ref:Step')), "
+                 "copy_of(copy_of(as_list(result._background_steps, 'ref:Step')[k])) is "
+                 "as_list(scenario_template._background_steps, 'ref:Step')[k])))",
              "the-template-keeps-its-steps-and-tags":
                  "len(scenario_template.steps) == old(len(scenario_template.steps)) and len(scenario_template.tags) == old(len(scenario_template.tags))",
          })
@@ -169,7 +179,7 @@ prop("C06", level="other", bounded=[],
             "Scenario(...) constructor stores its arguments (trusted contract new:Scenario)"])
 
 # -- rows never influence each other or the template: the step of a row is a deep copy --------------------------------
-shape("Step", table="opt:ref:Table", text="any", name="any")
+shape("Step", table="opt:ref:Table", text="any")
 shape("Table", headings="seq:str", rows="seq:ref:Row")
 shape("Row", cells="seq:str", headings="any")
 contract("lib:copy.deepcopy", trusted=True, pos_params=["x"], fresh_result="Step",
@@ -230,3 +240,71 @@ contract(M + "ScenarioOutlineBuilder.render_template", props=["C06"],
          },
          doc="`str.replace` and `%` formatting are uninterpreted (A-str); what is proved is which replacements are made, "
              "with which pair, in which order, and that none is skipped")
+
+# -- build_scenarios: one scenario per examples row, in examples-block then row order; every table left unmodified --------
+oracle("bs_off", ["ref", "int"], "int")     # number of rows in the first k examples blocks of an outline (blocks without table: 0)
+EX = "scenario_outline.examples"
+_ROWS = "as_ref(%s.table, 'Table').rows"
+contract("abs:make_scenario_for", trusted=True, params={"self": "ref:ScenarioOutlineBuilder"},
+         pos_params=["self", "example", "row", "scenario_template", "params"], fresh_result="Scenario",
+         modifies=["dict(params)", "*.status", "*.hook_failed", "*.duration", "*.exception", "*.exc_traceback",
+                   "*.error_message", "*.captured", "*._background_steps", "*._inherited_steps"],
+         ensures={"the-row's-scenario": "result._row is row and result.parent is scenario_template and exact_type(result, 'Scenario')"},
+         doc="call-site view of make_scenario_for in build_scenarios (a new Scenario belonging to the row; proved above)")
+contract("abs:_text", trusted=True, pos_params=["x"], pure=True, result="str", doc="six.text_type(x)")
+_BS_COMMON = {
+    "earlier-entries-are-the-rows-of-the-earlier-blocks":
+        "forall(lambda e, r: implies(0 <= e < %(ei)s and not is_none(%(ex)s[e].table) and 0 <= r and "
+        "r < len(as_ref(%(ex)s[e].table, 'Table').rows), "
+        "is_fresh(scenarios[bs_off(scenario_outline, e) + r]) and "
+        "scenarios[bs_off(scenario_outline, e) + r]._row is as_ref(%(ex)s[e].table, 'Table').rows[r]))",
+    "earlier-tables-are-unmodified":
+        "forall(lambda e: implies(0 <= e < %(ei)s and not is_none(%(ex)s[e].table), "
+        "as_ref(%(ex)s[e].table, 'Table').modified == False))",
+    "a-new-list": "is_fresh(scenarios)",
+    "no-list-that-existed-before-changes": "old_lists_unchanged()",
+    "earlier-blocks-end-before-the-current-offset":
+        "forall(lambda e: implies(0 <= e < %(ei)s and not is_none(%(ex)s[e].table), 0 <= bs_off(scenario_outline, e) and "
+        "bs_off(scenario_outline, e) + len(as_ref(%(ex)s[e].table, 'Table').rows) <= bs_off(scenario_outline, %(ei)s)))",
+}
+_BS_MOD = ["list(scenarios)", "dict(params)", "*.modified", "*.index", "*.id", "*.status", "*.hook_failed", "*.duration", "*.exception",
+           "*.exc_traceback", "*.error_message", "*.captured", "*._background_steps", "*._inherited_steps"]
+contract(M + "ScenarioOutlineBuilder.build_scenarios", props=["C06", "C10", "C17"],
+         params={"self": "ref:ScenarioOutlineBuilder", "scenario_outline": "ref:ScenarioOutline"},
+         self_classes=["ScenarioOutlineBuilder"],
+         callsites={"self.make_scenario_for": "abs:make_scenario_for", "_text": "abs:_text"},
+         requires={"tables-are-not-shared-between-examples-blocks":
+                   "forall(lambda a, b: implies(0 <= a < b and b < len(%(ex)s) and not is_none(%(ex)s[a].table), "
+                   "%(ex)s[a].table is not %(ex)s[b].table))" % {"ex": EX}},
+         assume={"definition-of-bs_off: rows before block k":
+                 "bs_off(scenario_outline, 0) == 0 and forall(lambda k: implies(0 <= k < len(%(ex)s), "
+                 "bs_off(scenario_outline, k + 1) == bs_off(scenario_outline, k) + "
+                 "(0 if is_none(%(ex)s[k].table) else len(as_ref(%(ex)s[k].table, 'Table').rows))))" % {"ex": EX}},
+         modifies=["*.modified", "*.index", "*.id", "*.status", "*.hook_failed", "*.duration", "*.exception", "*.exc_traceback",
+                   "*.error_message", "*.captured", "*._background_steps", "*._inherited_steps"],
+         loops=[Loop(modifies=_BS_MOD, invariant=dict({k: v % {"ei": "_i", "ex": EX} for k, v in _BS_COMMON.items()}, **{
+                    "length-so-far": "len(scenarios) == bs_off(scenario_outline, _i) and bs_off(scenario_outline, _i) >= 0",
+                    "offsets-are-monotone": "forall(lambda a: implies(0 <= a <= _i, 0 <= bs_off(scenario_outline, a) and "
+                                            "bs_off(scenario_outline, a) <= bs_off(scenario_outline, _i)))",
+                    "same": "_seq is %s" % EX})),
+                Loop(modifies=_BS_MOD, invariant=dict({k: v % {"ei": "example_index", "ex": EX} for k, v in _BS_COMMON.items()}, **{
+                    "length-so-far": "len(scenarios) == bs_off(scenario_outline, example_index) + _i and "
+                                     "bs_off(scenario_outline, example_index) >= 0",
+                    "rows-of-this-block-so-far":
+                        "forall(lambda e, r: implies(e == example_index and 0 <= r and r < _i, "
+                        "is_fresh(scenarios[bs_off(scenario_outline, e) + r]) and "
+                        "scenarios[bs_off(scenario_outline, e) + r]._row is as_ref(%(ex)s[e].table, 'Table').rows[r]))" % {"ex": EX},
+                    "same": "_seq is as_ref(example.table, 'Table').rows and not is_none(example.table) and "
+                            "0 <= example_index < len(%(ex)s) and example is %(ex)s[example_index]" % {"ex": EX}}))],
+         ensures={
+             "one-scenario-per-examples-row-in-block-then-row-order":
+                 "is_fresh(result) and len(result) == bs_off(scenario_outline, len(%(ex)s)) and "
+                 "forall(lambda e, r: implies(0 <= e < len(%(ex)s) and not is_none(%(ex)s[e].table) and 0 <= r and "
+                 "r < len(as_ref(%(ex)s[e].table, 'Table').rows), "
+                 "is_fresh(result[bs_off(scenario_outline, e) + r]) and "
+                 "result[bs_off(scenario_outline, e) + r]._row is as_ref(%(ex)s[e].table, 'Table').rows[r]))" % {"ex": EX},
+             "no-examples-table-is-left-marked-modified":
+                 "forall(lambda e: implies(0 <= e < len(%(ex)s) and not is_none(%(ex)s[e].table), "
+                 "as_ref(%(ex)s[e].table, 'Table').modified == False))" % {"ex": EX},
+         },
+         doc="blocks without a table contribute no scenario (NO-TABLE syndrome: reported, skipped)")
